@@ -1428,6 +1428,27 @@ func (x *vc) modsOfAssignsClause(fr *frame, st *state, callee *ssa.Function, cc 
 		mod.all = true
 		return
 	}
+	// deref(p.f) with f a map field: the entries of maps of that type (which object is not tracked here: all of them)
+	if e.op == "call" && e.name == "deref" && len(e.args) == 1 && e.args[0].op == "sel" && e.args[0].args[0].op == "id" && callee != nil {
+		for _, p := range callee.Params {
+			if p.Name() != e.args[0].args[0].name {
+				continue
+			}
+			if pt, ok := p.Type().Underlying().(*types.Pointer); ok {
+				if s, ok := pt.Elem().Underlying().(*types.Struct); ok {
+					for k := 0; k < s.NumFields(); k++ {
+						if mt, isMap := s.Field(k).Type().Underlying().(*types.Map); isMap && s.Field(k).Name() == e.args[0].name {
+							d, v, l := x.mapArrs(st, mt)
+							mod.add(d, "*")
+							mod.add(v, "*")
+							mod.add(l, "*")
+							return
+						}
+					}
+				}
+			}
+		}
+	}
 	root := e
 	for root.op == "sel" && root.args[0].op == "sel" {
 		root = root.args[0]
